@@ -41,7 +41,7 @@ DoFetchBypass == \E o \in {ExpFetch(pc)} : FetchBypass(o)
 DoFetchMiss == \E o \in {ExpFetch(pc)} : FetchMiss(o)
 DoEndFetch == \E o \in {[outLen |-> c.len]} : EndFetch(o)
 DoLocal == \E o \in {[s |-> NextCut(c, pc), ok |-> TRUE]} : Local(o)
-DoEndLocal == \E o \in {[x |-> 0]} : EndLocal(o)
+DoEndLocal == \E o \in {[n |-> Cardinality(Cuts(c))]} : EndLocal(o)
 Next == DoLoadBlob \/ DoLoadFiller \/ DoEndLoad \/ DoFetchDecrypt \/ DoFetchBypass \/ DoFetchMiss \/ DoEndFetch \/ DoLocal \/ DoEndLocal
 Spec == Init /\ [][Next]_vars
 
